@@ -292,6 +292,10 @@ func (cx *Ctx) scanPrefixClosedRule(r *Report, mods []string, rule string) int {
 		if longer == "" {
 			continue
 		}
+		// a component that follows its own length is self-delimiting (… | len(denom) | denom)
+		if k := len(P.comps); k >= 2 && strings.Contains(P.comps[k-2].desc, "len("+P.comps[k-1].desc+")") {
+			continue
+		}
 		n++
 		key := shortFn(P.fn) + "|" + P.comps[len(P.comps)-1].desc
 		var ss []string
